@@ -27,6 +27,8 @@ BetweenBound(x) == (x.k = "between" /\ (~SimpleBound(x.a) \/ ~SimpleBound(x.b)))
 RECURSIVE AnyIlikeEsc(_), AnyBetweenBound(_)
 AnyIlikeEsc(e) == IlikeEsc(e) \/ \E i \in DOMAIN Kids(e) : AnyIlikeEsc(Kids(e)[i])
 AnyBetweenBound(e) == BetweenBound(e) \/ \E i \in DOMAIN Kids(e) : AnyBetweenBound(Kids(e)[i])
+RECURSIVE MethodsOk(_)
+MethodsOk(e) == (e.k # "bin" \/ MethodOk(e)) /\ \A i \in DOMAIN Kids(e) : MethodsOk(Kids(e)[i])
 Diag(e) == IF AnyIlikeEsc(e) THEN "ilike_escape" ELSE IF AnyBetweenBound(e) THEN "between_bound" ELSE "general"
 
 Verdict(r) ==
@@ -38,7 +40,7 @@ Verdict(r) ==
                       ELSE {"C05/" \o B \o "/" \o x \o "/" \o Diag(r.e) : x \in ExprReasons(B, r.e, o[B].r)}
                       : B \in Backends }
       exact == \A B \in Backends : ~Supported(B, r.e) \/ IsPanic(o[B]) \/ o[B].r = "SELECT " \o RenderExpr(B, MP, r.e)
-  IN [id |-> r.id, keys |-> keys, exact |-> exact, nt |-> OpCount(r.e) >= 2,
+  IN [id |-> r.id, keys |-> keys \cup (IF MethodsOk(r.e) THEN {} ELSE {"?method_annotation_contradicts_expr_methods_json"}), exact |-> exact, nt |-> OpCount(r.e) >= 2,
       ref |-> IF Supported("sqlite", r.e) THEN RefText(Canon("sqlite", r.e)) ELSE "",
       sql |-> IF Supported("sqlite", r.e) /\ ~IsPanic(o["sqlite"]) THEN o["sqlite"].r ELSE "",
       pref |-> IF Supported("sqlite", r.e) /\ ~IsPanic(o["sqlite"]) /\ ParsedOf("sqlite", o["sqlite"].r).ok
